@@ -730,6 +730,15 @@ func (m *Flow) condFacts(cond ast.Expr, st Facts) (t, f Facts) {
 			}
 			return t, f
 		case token.GTR, token.GEQ:
+			// x > 0 / x >= 1 on a plain value
+			if bl, ok := ast.Unparen(c.Y).(*ast.BasicLit); ok && ((c.Op == token.GTR && bl.Value == "0") || (c.Op == token.GEQ && bl.Value == "1")) {
+				if _, isCall := ast.Unparen(c.X).(*ast.CallExpr); !isCall {
+					if key := m.atomKey(c.X, st); key != "" {
+						t["gt0:"+key], f["le0:"+key] = true, true
+						return t, f
+					}
+				}
+			}
 			// len(x) > 0 / len(x) >= 1
 			if call, ok := ast.Unparen(c.X).(*ast.CallExpr); ok {
 				if id, ok := call.Fun.(*ast.Ident); ok && id.Name == "len" && len(call.Args) == 1 {
@@ -818,6 +827,12 @@ func isNilExpr(info *types.Info, e ast.Expr) bool {
 // field keyed by its owner type ("field:Executor.Dry"), or a variable.
 func (m *Flow) atomKey(e ast.Expr, st Facts) string {
 	e = ast.Unparen(e)
+	switch e.(type) {
+	case *ast.SelectorExpr, *ast.CallExpr, *ast.BinaryExpr:
+		if k := dryLeafAtom(m.P, m.info, e); k != "" {
+			return k // a test of a checker's dry flag, in whatever representation the constructor stores it
+		}
+	}
 	switch x := e.(type) {
 	case *ast.CallExpr:
 		if l := m.labelOf(x, st); l != "" {
@@ -839,6 +854,10 @@ func (m *Flow) atomKey(e ast.Expr, st Facts) string {
 		}
 	case *ast.SelectorExpr:
 		return fieldKey(m.info, x)
+	case *ast.StarExpr:
+		if k := m.atomKey(x.X, st); k != "" {
+			return "deref:" + k
+		}
 	}
 	return ""
 }
